@@ -1,6 +1,7 @@
 package main
 
 import (
+	"go/token"
 	"go/ast"
 	"go/constant"
 	"go/types"
@@ -41,10 +42,12 @@ func runC07(e *Engine, r *Report, tier string) {
 	r.Rule("R3", "gov EndBlocker error returns classified", 1, "")
 	r.Rule("R5", "a decimal parsed with its error discarded in block processing comes from a field its type's validator always parses", 4, "NewDecFromStr calls with unused error in the closure")
 	r.Rule("R6", "every module account that is minted to / burned from has the permission in the app's module-account table (bank panics otherwise)", 10, "mint/burn call sites of fx-core plus the dependency modules' own needs")
+	r.Rule("R7", "a record pointer obtained from a getter that can return nil is not dereferenced in block processing without a nil test", 1, "results of nil-returning getters used in the block-processing closure")
 	r.Rule("R4", "a queue entry is removed under the field values it was filed under (no rewrite of those fields can reach the removal)", 1, "queue removals in end-block callbacks keyed by record fields")
 
 	e.c07ModuleAccountPerms(r)
 	closure := e.blockClosure()
+	e.c07NilableGetters(r, closure)
 	var fns []*ssa.Function
 	for f := range closure {
 		if isFx(f) && !isAuxPkg(fnPkgPath(f)) {
@@ -1012,3 +1015,125 @@ func dedupStrings(in []string) []string {
 var reLocalNames = regexp.MustCompile(`(alloc|P):[A-Za-z0-9_]+`)
 
 func normD4(k string) string { return reLocalNames.ReplaceAllString(k, "$1:_") }
+
+
+// nilablePtrResult: index of a pointer-typed result for which some return of fn yields the nil constant (-1 if none).
+func nilablePtrResult(fn *ssa.Function) int { return nilablePtrResultD(fn, 0) }
+
+func nilablePtrResultD(fn *ssa.Function, depth int) int {
+	if fn == nil || fn.Blocks == nil || depth > 3 {
+		return -1
+	}
+	res := fn.Signature.Results()
+	for _, b := range fn.Blocks {
+		ret, ok := b.Instrs[len(b.Instrs)-1].(*ssa.Return)
+		if !ok {
+			continue
+		}
+		for i, v := range ret.Results {
+			if i >= res.Len() {
+				break
+			}
+			if _, isPtr := res.At(i).Type().Underlying().(*types.Pointer); !isPtr {
+				continue
+			}
+			viaGetter := false
+			if call, isCall := v.(*ssa.Call); isCall {
+				// `return k.GetOracleSet(ctx, nonce)`: nil-able if that getter is
+				if g := call.Common().StaticCallee(); g != nil && isFx(g) && g != fn && nilablePtrResultD(g, depth+1) == 0 && g.Signature.Results().Len() == 1 {
+					viaGetter = true
+				}
+			}
+			if c, isC := v.(*ssa.Const); viaGetter || (isC && c.IsNil()) {
+				// only getters that signal absence by nil alone: (ptr) or (ptr, bool) with no error result
+				hasErr := false
+				for k := 0; k < res.Len(); k++ {
+					if isErrorType(res.At(k).Type()) {
+						hasErr = true
+					}
+				}
+				if !hasErr {
+					return i
+				}
+			}
+		}
+	}
+	return -1
+}
+
+// c07NilableGetters (R7): in the code reachable from the begin/end blockers, the pointer a getter returns — when that
+// getter has a `return nil` — is dereferenced only behind a nil test of that very value (round-8 seed C07 replaced the test
+// by "some other counter is non-zero" and pruned the record the counter still pointed at).
+func (e *Engine) c07NilableGetters(r *Report, closure map[*ssa.Function]bool) {
+	n := 0
+	for fn := range closure {
+		if !isFx(fn) || isAuxPkg(fnPkgPath(fn)) {
+			continue
+		}
+		fn := fn
+		allInstrs(fn, func(i ssa.Instruction) {
+			c, ok := i.(*ssa.Call)
+			if !ok {
+				return
+			}
+			var g *ssa.Function
+			for _, f := range e.calleesOf(c) {
+				if isFx(f) {
+					g = f
+				}
+			}
+			idx := nilablePtrResult(g)
+			if idx < 0 {
+				return
+			}
+			var v ssa.Value = c
+			if g.Signature.Results().Len() > 1 {
+				v = nil
+				for _, ref := range *c.Referrers() {
+					if ex, ok := ref.(*ssa.Extract); ok && ex.Index == idx {
+						v = ex
+					}
+				}
+				if v == nil {
+					return
+				}
+			}
+			// dereferences of v
+			for _, ref := range *v.Referrers() {
+				var at ssa.Instruction
+				switch x := ref.(type) {
+				case *ssa.FieldAddr:
+					if x.X == v {
+						at = x
+					}
+				case *ssa.UnOp:
+					if x.Op == token.MUL && x.X == v {
+						at = x
+					}
+				}
+				if at == nil {
+					continue
+				}
+				n++
+				ck := e.FnKey(fn) + " " + g.Name() + "() result dereferenced"
+				okGuard := guardedNonNil(v, at)
+				if !okGuard {
+					// a comma-ok companion (`v, found := get(); if !found { return }`) excludes nil as well when the getter
+					// returns nil exactly with found == false: accept a dominating guard on any other result of the same call
+					for _, gd := range GuardsOf(at) {
+						if ex, ok := gd.Cond.(*ssa.Extract); ok && ex.Tuple == ssa.Value(c) && gd.Pol {
+							okGuard = true
+						}
+						if u, ok := gd.Cond.(*ssa.UnOp); ok && u.Op == token.NOT {
+							if ex, ok := u.X.(*ssa.Extract); ok && ex.Tuple == ssa.Value(c) && !gd.Pol {
+								okGuard = true
+							}
+						}
+					}
+				}
+				r.Check(okGuard, "R7", ck, e.InstrPos(at), "dominated by a nil test of that value", "the pointer returned by "+g.Name()+"() — which returns nil when the record does not exist — is dereferenced in block processing without a dominating nil test of that value: once the record is gone (pruned, never created) every block panics")
+			}
+		})
+	}
+	r.Note("R7: %d dereferences of nil-able getter results in the block-processing closure", n)
+}
